@@ -334,6 +334,22 @@ class Engine:
             return None
         return flow.replay_block(self.f, self.IN, pos[0], self.xfer_elem, upto=eid)
 
+    def _at_exit(self, bid):
+        """State on the edge(s) from block bid into the exit block (the edge's own condition applied)."""
+        f = self.f
+        st = flow.replay_block(f, self.IN, bid, self.xfer_elem)
+        if st is None:
+            return None
+        out = None
+        for s2, lab in f.edges(bid):
+            if s2 != f.exit:
+                continue
+            e = self.xfer_edge(st, bid, lab, s2)
+            if e is None:
+                continue
+            out = e if out is None else (out | e)
+        return out
+
     def exit_states(self):
         """Yield (block id, return node or None, S, K) for every function exit."""
         f = self.f
@@ -341,7 +357,7 @@ class Engine:
             b = f.blocks[bid]
             if f.exit not in b.succs or b.noret:
                 continue
-            st = flow.replay_block(f, self.IN, bid, self.xfer_elem)
+            st = self._at_exit(bid)
             if st is None:
                 continue
             ret = None
@@ -359,7 +375,7 @@ class Engine:
             b = f.blocks[bid]
             if f.exit not in b.succs or b.noret:
                 continue
-            st = flow.replay_block(f, self.IN, bid, self.xfer_elem)
+            st = self._at_exit(bid)
             if st is None:
                 continue
             ret = None
